@@ -769,8 +769,8 @@ namespace
         {
             int t = st.actor % 5;
             static const char* const vn[] = {"assign_bool", "assign_ref", "and_assign", "or_assign", "xor_assign", "flip", "tilde", "address_of", "front", "back", "at_ref", "const_ref",
-                                             "assign_temporary_ref", "assign_const_ref", "fill_with_named_ref"};
-            unsigned v = static_cast<unsigned>(st.d % 15);
+                                             "assign_temporary_ref", "assign_const_ref", "fill_with_named_ref", "swap_refs", "iter_swap", "reverse_range"};
+            unsigned v = static_cast<unsigned>(st.d % 18);
             Scope sc(*this, st, "ref_op", vn[v], t);
             Model& m = model_of(t);
             if (m.empty()) { stats().add("skipped.empty_ref_op"); return; }
@@ -796,6 +796,12 @@ namespace
                 case 11: got = static_cast<bool>(cx[i]) && !~cx[i]; want = m[i]; wrote = false; break;
                 case 12: x[i] = x[j]; m[i] = m[j]; break;                                  // from a temporary reference
                 case 13: { const auto rj = x[j]; x[i] = rj; m[i] = m[j]; } break;            // from a const named reference
+                // exchanging two bits through their references (also a bit with itself, as every permutation with a fixed point does)
+                case 15: { using std::swap; auto ri = x[i]; auto rj = x[j]; if (st.c & 2) swap(ri, rj); else swap(x[i], x[j]); bool tb = m[i]; m[i] = m[j]; m[j] = tb; if (i == j) SIM_PROBE("bit_swapped_with_itself"); } break;
+                case 16: { std::iter_swap(x.begin() + static_cast<std::ptrdiff_t>(i), x.begin() + static_cast<std::ptrdiff_t>(j)); bool tb = m[i]; m[i] = m[j]; m[j] = tb; if (i == j) SIM_PROBE("bit_swapped_with_itself"); } break;
+                case 17: { size_t lo = std::min(i, j), hi = std::max(i, j) + 1;       // odd lengths have a middle element that stays
+                           std::reverse(x.begin() + static_cast<std::ptrdiff_t>(lo), x.begin() + static_cast<std::ptrdiff_t>(hi));
+                           std::reverse(m.begin() + static_cast<std::ptrdiff_t>(lo), m.begin() + static_cast<std::ptrdiff_t>(hi)); } break;
                 default:
                     { auto rj = x[j]; bool vj = m[j]; size_t lo = std::min(i, j), hi = std::max(i, j);
                       std::fill(x.begin() + static_cast<std::ptrdiff_t>(lo), x.begin() + static_cast<std::ptrdiff_t>(hi), rj);
